@@ -5,6 +5,7 @@ import GeosModel.Model.LinRef.Map
 import GeosModel.Model.LinRef.Project
 import GeosModel.Model.Lines.Merge
 import GeosModel.Model.Lines.Noding
+import GeosModel.Model.Lines.HoleAssign
 /-! Driver for C19 (`drv_c19 <stream>`): streams `linref`, `merge`, `node`, `polygonize`, `sharedpaths`.
 
 `linref`  — the Float instance of the linear-referencing model answers with result *bits* (compared bit for bit with GEOS).
@@ -490,6 +491,33 @@ def sharedpaths (line : String) : String :=
     | none => "bad-line"
   | _ => "bad-line"
 
+
+/-! ### hole assignment (`EdgeRing::findEdgeRingContaining`) -/
+
+def parseHoleAssign (r : List String) : Option (RawLines × RawLines × List RawLines) := do
+  let (inp, r) ← parseLineSet r
+  let r ← expectBar r
+  let (shells, r) ← parseLineSet r
+  let r ← expectBar r
+  let (nh, r) ← match r with | k :: r => k.toNat?.map (·, r) | [] => none
+  let (holes, r) ← parsePolys nh r
+  if r.isEmpty then some (inp, shells, holes) else none
+
+/-- `A arrangement | shells | nholes (variants)*nholes` → the model's shell index (or -1) for every hole ring variant -/
+def holeassign (line : String) : String :=
+  match Driver.tokens line with
+  | "A" :: r =>
+    match parseHoleAssign r with
+    | some (inp, shells, holes) =>
+      match scaler (inp.flatten ++ shells.flatten ++ holes.flatten.flatten) with
+      | none => "non-finite"
+      | some sc =>
+        let sh : List (List Pt) := shells.map fun l => l.map sc
+        let ans := holes.flatten.map fun h => toString (GeosModel.Lines.HoleAssign.findIndex (h.map sc) sh)
+        if ans.isEmpty then "none" else Driver.joinWith " " ans
+    | none => "bad-line"
+  | _ => "bad-line"
+
 end Driver.C19
 
 def handlers : List (String × (String → String)) :=
@@ -501,6 +529,7 @@ def handlers : List (String × (String → String)) :=
     ("node_fp", Driver.C19.node),
     ("polygonize", Driver.C19.polygonize),
     ("sharedpaths", Driver.C19.sharedpaths),
+    ("holeassign", Driver.C19.holeassign),
     -- object-reuse self-consistency: the models are pure functions of their input, so a repeated / incremental query agrees
     ("reuse", fun line => if line.startsWith "RU " then "consistent" else "bad-line") ]
 
